@@ -216,7 +216,7 @@ def units(tier):
     return u
 
 
-BUDGET = {"quick": 200, "thorough": 1500}
+BUDGET = {"quick": 200, "thorough": 1200}
 UNIT_PATH_CAP = {"quick": 400, "thorough": 20000}
 BOUNDS = {
     "quick": "catalogue S1 + 3 map shapes + 6 S2 shapes; every field in {never set, set to the type default, set to a symbolic non-default value (one byte wide)} "
